@@ -236,7 +236,7 @@ theorem sync_prefix (db : DB) (inv : DiskInv db) (n : Nat) (hn : n < (syncEffs d
     intro kr hkr
     cases ho : db.datOpen with
     | true => exact Or.inl ho
-    | false => rw [inv.dat3 ho] at hkr; cases hkr
+    | false => exact Or.inr (inv.dat2 ho kr hkr)
   suffices hG : Grown db.fs (db.fs.applyAll ((syncEffs db).take n)) keep from hG.readable hR0 hkeep
   -- split the prefix along the three phases
   obtain ⟨c_open, c_same, c_new, _⟩ := checkDat_post db
